@@ -34,7 +34,20 @@ pub fn corr(ctx: &mut Ctx) {
         };
         ctx.count(&format!("history={}", ["empty", "one item", "2-3 items", "random", "long"][(c as usize / 6) % 5]));
         let nx = if c % 2 == 0 { 1 + rng.below(3) as usize } else { 1 + rng.below(2 * m as u64 + 5) as usize };
-        let xs = gen_stream(&mut rng, nx);
+        let mut xs = gen_stream(&mut rng, nx);
+        // relation between the stream after the reinit and the history (state remembered ACROSS the reinit, such as
+        // a one-entry cache of the last item, shows only when the two share items at the boundary)
+        let rel = rng.below(4);
+        if !hist.is_empty() {
+            match rel {
+                1 => { xs[0] = *hist.last().unwrap(); }                                   // overlapping windows [.., x] [x, ..]
+                2 => { xs = hist.iter().cloned().take(nx.max(1)).collect(); }               // the same stream again
+                3 => { xs[0] = *hist.last().unwrap(); xs.push(hist[0]); }
+                _ => {}
+            }
+        }
+        let nx = xs.len();
+        ctx.count(&format!("after-reinit stream vs history: {}", ["independent", "starts with the last history item", "prefix of the history", "last..first"][if hist.is_empty() { 0 } else { rel as usize }]));
 
         // ---------------- SuperMinHash<f64>
         ctx.begin_case(&format!("reinit smh m={} hist={} x={}", m, hist.len(), nx));
